@@ -22,17 +22,18 @@ import (
 )
 
 type concGaterRec struct {
-	K          string   `json:"k"`
-	What       string   `json:"what"`
-	Goroutines int      `json:"goroutines"`
-	IPs        []string `json:"ips"`
-	Sums       []int    `json:"sums"`   // per IP: sum of the penalties applied
-	Scores     []int    `json:"scores"` // per IP: final score (-1: no entry)
-	Banned     []bool   `json:"banned"` // per IP: listed banned
-	Refused    []bool   `json:"refused"`
-	Ops        int      `json:"ops"`
-	Panic      string   `json:"panic,omitempty"`
-	Err        string   `json:"err,omitempty"`
+	K           string   `json:"k"`
+	What        string   `json:"what"`
+	Goroutines  int      `json:"goroutines"`
+	IPs         []string `json:"ips"`
+	Sums        []int    `json:"sums"`   // per IP: sum of the penalties applied
+	Scores      []int    `json:"scores"` // per IP: final score (-1: no entry)
+	Banned      []bool   `json:"banned"` // per IP: listed banned
+	Refused     []bool   `json:"refused"`
+	Expirations []int64  `json:"expirations"` // per IP: expiration of the entry (-1 not banned, 0 no entry)
+	Ops         int      `json:"ops"`
+	Panic       string   `json:"panic,omitempty"`
+	Err         string   `json:"err,omitempty"`
 }
 
 func runConcGater(r *hx.Rng, id int) (rec concGaterRec) {
@@ -44,7 +45,12 @@ func runConcGater(r *hx.Rng, id int) (rec concGaterRec) {
 	}()
 	ips := []string{"1.2.3.4", "10.0.0.7", "2001:db8::1", "2001:db8::2", "9.9.9.9", "fe80::1"}
 	rec.IPs = ips
-	g, err := p2p.VerifC18NewGater(time.Hour, 50*time.Millisecond, nil)
+	exp := time.Hour
+	if id%2 == 1 {
+		// the sweep goroutine (every 5 ms, ban 1 s) races the penalties: only consistency of the final state is checked
+		rec.What, exp = "gater-sweep", time.Second
+	}
+	g, err := p2p.VerifC18NewGater(exp, 5*time.Millisecond, nil)
 	if err != nil {
 		rec.Err = err.Error()
 		return rec
@@ -91,6 +97,9 @@ func runConcGater(r *hx.Rng, id int) (rec concGaterRec) {
 		}(gi)
 	}
 	wg.Wait()
+	if rec.What == "gater-sweep" {
+		time.Sleep(20 * time.Millisecond)
+	}
 	banned := g.Banned()
 	for _, ip := range ips {
 		s, _, ok := g.Score(ip)
@@ -98,6 +107,8 @@ func runConcGater(r *hx.Rng, id int) (rec concGaterRec) {
 			s = -1
 		}
 		rec.Scores = append(rec.Scores, s)
+		_, ex, _ := g.Score(ip)
+		rec.Expirations = append(rec.Expirations, ex)
 		rec.Banned = append(rec.Banned, contains(banned, ip))
 		gt, _ := g.Gates(maddr(ip))
 		rec.Refused = append(rec.Refused, !(gt[0] && gt[1] && gt[4] && gt[5]) && !(gt[2] && gt[3] && gt[5]))
@@ -112,8 +123,12 @@ type concLimRec struct {
 	Counts   [][]int `json:"counts"`   // per peer, per procedure: messages sent
 	Scores   []int   `json:"scores"`   // per peer: final score of its IP (-1 none)
 	Counters [][]int `json:"counters"` // per peer, per procedure: final counter
-	Panic    string  `json:"panic,omitempty"`
-	Err      string  `json:"err,omitempty"`
+	// two more peers are each driven by FOUR goroutines at once on procedure 0: one sends exactly `limit` messages in total
+	// (never penalised whatever the interleaving of increaseCounter / checkLimit), the other limit+1 (exactly one penalty)
+	SharedScores   []int  `json:"shared_scores"`   // [legal peer, excess peer] final score (-1 none)
+	SharedCounters []int  `json:"shared_counters"` // their final counters on procedure 0
+	Panic          string `json:"panic,omitempty"`
+	Err            string `json:"err,omitempty"`
 }
 
 func runConcLimiter(r *hx.Rng, id int) (rec concLimRec) {
@@ -196,7 +211,44 @@ func runConcLimiter(r *hx.Rng, id int) (rec concLimRec) {
 			}
 		}(q)
 	}
+	// same (procedure, peer) from four goroutines at once
+	sharedIDs := make([]peer.ID, 2)
+	sharedIP := []string{fmt.Sprintf("10.3.%d.1", id%250), fmt.Sprintf("10.3.%d.2", id%250)}
+	for i := range sharedIDs {
+		pid, err := peer.Decode(fakePeerID(r))
+		if err != nil {
+			rec.Err = err.Error()
+			return rec
+		}
+		sharedIDs[i] = pid
+		total := rec.Procs[0].Limit + i // limit, limit+1
+		for gi := 0; gi < 4; gi++ {
+			share := total / 4
+			if gi < total%4 {
+				share++
+			}
+			wg.Add(1)
+			go func(i, share int) {
+				defer wg.Done()
+				for k := 0; k < share; k++ {
+					if err := n.LimiterMessage(procName(0), sharedIDs[i], maddr(sharedIP[i])); err != nil {
+						mu.Lock()
+						rec.Err = err.Error()
+						mu.Unlock()
+					}
+				}
+			}(i, share)
+		}
+	}
 	wg.Wait()
+	for i := range sharedIDs {
+		s, _, ok := n.Score(sharedIP[i])
+		if !ok {
+			s = -1
+		}
+		rec.SharedScores = append(rec.SharedScores, s)
+		rec.SharedCounters = append(rec.SharedCounters, n.LimiterCounter(procName(0), sharedIDs[i]))
+	}
 	for q := 0; q < peers; q++ {
 		s, _, ok := n.Score(ipOf[q])
 		if !ok {
